@@ -22,6 +22,7 @@ type ConcOpts struct {
 	NoCleanup  bool // C14: audit without calling anything after the clients returned
 	HotKeys    [2]int
 	AllowStall bool
+	Resize     bool // a third of the runs: filler keys around the table's grow / shrink thresholds
 	SweepCheck bool // C13: advance the clock by more than a tick before the final CleanUp and demand a clean sweep
 	NonTrivial func(o *ConcOutcome) bool
 }
